@@ -85,8 +85,13 @@ func scenC16(run *vlab.Run, sx, tmp string) {
 		kinds := []struct {
 			cmd  []string
 			kind string
-		}{{[]string{"arp"}, "arp"}, {[]string{"icmp"}, "icmp"}, {[]string{"tcp", "syn"}, "tcp"}, {[]string{"tcp"}, "tcp"}, {[]string{"tcp", "syn"}, "tcp"}}
-		k := kinds[rng.Intn(len(kinds))]
+		}{{[]string{"arp"}, "arp"}, {[]string{"icmp"}, "icmp"}, {[]string{"tcp", "syn"}, "tcp"}, {[]string{"tcp"}, "tcp"}, {[]string{"tcp", "syn"}, "tcp"},
+			// every sibling command wires --exit-delay by itself
+			{[]string{"tcp", "fin"}, "tcp"}, {[]string{"tcp", "null"}, "tcp"}, {[]string{"tcp", "xmas"}, "tcp"}, {[]string{"tcp", "--flags", "fin,ack"}, "tcp"}, {[]string{"tcp", "--flags", "syn"}, "tcp"}}
+		k := kinds[rng.Intn(5)]
+		if i%2 == 1 {
+			k = kinds[5+(i/2)%5]
+		}
 		c.Cmd, c.Kind, c.Link, c.Mode = k.cmd, k.kind, "tap", "subnet"
 		bits := 27 + rng.Intn(5)
 		base := (0x0a090000 | rng.Uint32()&0xff00) &^ (1<<uint(32-bits) - 1)
@@ -197,6 +202,9 @@ func scenC16(run *vlab.Run, sx, tmp string) {
 					}
 					if last && c.Late {
 						fr, rec := replyFor(c.Kind, oracle.LinkEthernet, dec, a, port, prng)
+						if c.Kind == "tcp" && len(c.Cmd) > 1 && c.Cmd[1] != "syn" {
+							rec = recTCP(ipS(a), port, "sa") // every tcp scan but the SYN scan prints the flags of the reply
+						}
 						mu.Lock()
 						lateRecs = append(lateRecs, rec)
 						mu.Unlock()
@@ -301,6 +309,7 @@ func scenC16(run *vlab.Run, sx, tmp string) {
 				continue // run the same scenario again
 			}
 			run.Count("c16_wire_runs", 1)
+			run.Count("c16_cmd:"+strings.Join(c.Cmd, " "), 1)
 			if c.AfterClose {
 				run.Count("runs_with_replies_after_chunk_end", 1)
 			}
@@ -339,8 +348,13 @@ func scenC15(run *vlab.Run, sx, tmp string) {
 		kinds := []struct {
 			cmd  []string
 			kind string
-		}{{[]string{"arp"}, "arp"}, {[]string{"icmp"}, "icmp"}, {[]string{"tcp", "syn"}, "tcp"}, {[]string{"udp"}, "udp"}, {[]string{"tcp", "--flags", "fin"}, "tcp"}}
-		k := kinds[rng.Intn(len(kinds))]
+		}{{[]string{"arp"}, "arp"}, {[]string{"icmp"}, "icmp"}, {[]string{"tcp", "syn"}, "tcp"}, {[]string{"udp"}, "udp"}, {[]string{"tcp", "--flags", "fin"}, "tcp"},
+			// every sibling command wires --rate by itself
+			{[]string{"tcp"}, "tcp"}, {[]string{"tcp", "fin"}, "tcp"}, {[]string{"tcp", "null"}, "tcp"}, {[]string{"tcp", "xmas"}, "tcp"}}
+		k := kinds[rng.Intn(5)]
+		if i%3 == 2 {
+			k = kinds[5+(i/3)%4]
+		}
 		c.Cmd, c.Kind, c.Link, c.Mode = k.cmd, k.kind, "tap", "subnet"
 		if k.kind != "arp" && rng.Intn(4) == 0 {
 			c.Link = "tun"
@@ -484,6 +498,7 @@ func scenC15(run *vlab.Run, sx, tmp string) {
 				run.Count("rate_runs_ok", 1)
 			}
 			run.Count("c15_wire_runs", 1)
+			run.Count("c15_cmd:"+strings.Join(c.Cmd, " "), 1)
 			run.Count("rate_windows_checked", windows)
 			run.Count("rate_probes_timestamped", int64(len(st)))
 			run.Count("rate_link:"+c.Link, 1)
